@@ -72,10 +72,18 @@ def run(ctx):
             if os.path.exists(q):
                 os.remove(q)
     n = 40 if thorough else 3
+    # symbolic lane: end points and factor(s) are free symbols; the unclamped forms (inherent with scalar and per-element
+    # factor, trait by value / by reference / over a range, fast and precise) of ten vector types and the un-normalised
+    # quaternion forms are compared with the polynomials from + t (to - from) and from (1 - t) + to t - all inputs at once
+    core.drive_validate(ctx, "sym", "Trace_Lerp", "Trace_Lerp_S", "lerp-sym", 1, ["lerp"], key=key_q,
+                        extra_args=["--area", "lerp"], corrupt_op="lerp")
     core.drive_validate(ctx, "lerp", "Trace_Lerp", "Trace_Lerp_Q", "lerp", n, OPS_Q, key=key_q, corrupt_op="transition")
     n = 600 if thorough else 40
     core.drive_validate(ctx, "slerp", "Trace_Lerp", "Trace_Lerp_F", "slerp", n, OPS_F, key=key_f, corrupt_op="slerp")
-    ctx.assumptions = ["integer endpoints: all 8-bit pairs (thorough) and their copies scaled by 2^(bits-8) for the wider "
+    ctx.assumptions = ["symbolic lane: vek is generic in T and stable Rust has no specialisation, so the polynomial returned on free "
+                       "symbols is the function computed for every element type; the clamped forms branch on the order of the "
+                       "factor and are examined on exact rationals",
+                       "integer endpoints: all 8-bit pairs (thorough) and their copies scaled by 2^(bits-8) for the wider "
                        "types, which the factor's float type represents exactly; factors j/8",
                        "slerp is evaluated where the interpolated angle is a token again (all j/m on acute pairs; 0, 1/2, 1 "
                        "and extrapolations on obtuse pairs); float rounding of slerp is not examined",
